@@ -251,7 +251,7 @@ def run_enum(part, shard, nshards):
     res["violations"] = list(viols.values())
     # distinct non-trivial trees: every enumerated (tree, kinds) pair is distinct by construction
     res["nontrivial_keys"] = [f"{part}|{shard}|{j}" for j in range(keys)]
-    res["extra"] = {"exhaustive": True}
+    res["extra"] = {"enumerated_completely": part}
     if not res["samples"]:
         res["samples"].append({"part": part, "labels": ["enum"], "case": {"tree": "((D+X)*2+C)"}})
     return res
